@@ -59,21 +59,35 @@ def absorb(run, rows, cases_by_id, sig_of=None):
 # ------------------------------------------------------------------------------------------ C01
 def check_C01(run, replay):
     run.rule = ("cases = (raw game tree, integer-weight profile); seeded perfect-recall trees from `harness gen eval` "
-                "(depth<=5, <=40 nodes, <=200 pure strategies per player; one third pure, one third sparse, one third "
+                "(depth<=5, <=60 nodes, <=200 pure strategies per player; one third pure, one third sparse, one third "
                 "full-support profiles; half dyadic); TLC evaluates spec/Game.tla (expected utility, brute-force best "
                 "response over all pure strategies) exactly; replay compares get_info() at 1e-11; non-trivial = the "
-                "game has at least one multi-action infoset; distinct by canonical JSON of the case")
+                "game has at least one multi-action infoset; distinct by canonical JSON of the case; plus the valid trees of U-tiny "
+                "(MC_Build's universe, hash slice) x every profile on the grid {(1,0),(0,1),(1,1)} per infoset")
     run.assumptions = ["f64 evaluation of a depth<=5 game is within 1e-11 of the exact rational value",
                        "TLC evaluates the TLA+ operators of Rat.tla / Game.tla correctly"]
-    cases_path = run.path("cases.ndjson")
     if replay:
-        write_ndjson(cases_path, [replay_case(replay)["case"]])
+        case = replay_case(replay)["case"]
+        if "exp" in case:
+            cases, rows = replay_pipeline(run, "eval", case)
+            absorb(run, rows, cases, mismatch_sig("eval"))
+            return
+        cases_path = run.path("cases.ndjson")
+        write_ndjson(cases_path, [case])
     else:
-        n = 300 if run.tier == "quick" else 3000
+        cases_path = run.path("cases.ndjson")
+        n = 300 if run.tier == "quick" else 4000
         harness(["gen", "eval", "--seed", run.seed, "--n", n, "--out", cases_path])
     cases = read_ndjson(cases_path)
     rows = oracle_pipeline(run, "MC_Eval", "eval", cases_path, timeout=3000)
-    absorb(run, rows, {c["id"]: c for c in cases})
+    absorb(run, rows, {c["id"]: c for c in cases}, mismatch_sig("eval"))
+    if replay:
+        return
+    # exhaustive small universe: valid trees of U-tiny x grid profiles
+    of = 32 if run.tier == "quick" else 2
+    cases2, rows2 = enumerate_pipeline(run, "MC_EvalTiny", "eval", env={"SLICE": run.seed % of, "OF": of}, timeout=6000,
+                                       name="tiny")
+    absorb(run, rows2, cases2, mismatch_sig("eval"))
 
 
 def enumerate_pipeline(run, module, what, env=None, timeout=900, tag="OUT", extra_replay=None, name="enum",
@@ -230,3 +244,58 @@ def check_C13(run, replay):
         run.sample(s)
     with open(trace) as f:
         run.sample({"trace_head": [json.loads(next(f)) for _ in range(6)]}, limit=4)
+
+
+def class_counts(rows):
+    c = {}
+    for r in rows:
+        if r.get("status") == "violation":
+            for m in r.get("mismatch", []):
+                k = "%s | %s" % (m.get("class"), m.get("what"))
+                c[k] = c.get(k, 0) + 1
+        else:
+            c[r.get("status")] = c.get(r.get("status"), 0) + 1
+    return c
+
+
+# ------------------------------------------------------------------------------------------ C11
+LEVELS["C11"] = "model_checking"
+
+
+def check_C11(run, replay):
+    only_tiny = os.environ.get("VERIF_ONLY_TINY") == "1"
+    run.rule = ("(a) U-tiny: TLC enumerates raw trees of depth<=2 below the root, 0..2 children per node, weights {1,3}, chance "
+                "infoset {none,c}, players {1,2}, infosets {x,y}, actions {a,b}, payoffs {0,2} (394758 trees; quick = a 1/16 "
+                "hash slice chosen by the seed), checks VerdictMatchesContract / ErrorNamesViolatedRule / "
+                "CompactPreservesSemantics / PrevLinksWellFounded of Build.tla against Contract.tla on each and replays each "
+                "into from_root (verdict, error kind, renumbering-invariant compact game, evaluation and 3-iteration solves "
+                "on accepted trees); (b) U-edit: seeded valid trees (depth<=5) x every single edit of the catalogue at every "
+                "node, judged by the same TLA+ operators; distinct by canonical JSON; every tree exercises construction")
+    run.assumptions = ["integer chance weights (so equal distributions normalise to identical f64 vectors)",
+                       "R3s (one-outcome chance node sharing a label) and R8 (non-finite payoff) acceptances are listed known findings"]
+    if replay:
+        cases, rows = replay_pipeline(run, "build", replay_case(replay)["case"])
+        absorb(run, rows, cases, mismatch_sig("build"))
+        return
+    of = 16 if run.tier == "quick" else 1
+    cases, rows = enumerate_pipeline(run, "MC_Build", "build", env={"SLICE": run.seed % of, "OF": of}, timeout=6000,
+                                     name="tiny")
+    run.notes["tiny_classes"] = class_counts(rows)
+    run.exhaustive = (of == 1)
+    absorb(run, rows, cases, mismatch_sig("build"))
+    if only_tiny:
+        return
+    # (b) U-edit
+    edit_path = run.path("edit.ndjson")
+    nbase = 12 if run.tier == "quick" else 150
+    harness(["gen", "edit", "--seed", run.seed, "--n", nbase, "--out", edit_path])
+    res = tlc("MC_BuildCases", env={"CASES": edit_path}, timeout=6000)
+    run.add_tlc(res)
+    exp_path = run.path("edit.exp.ndjson")
+    recs = res.out("OUT")
+    write_ndjson(exp_path, [{"id": n, "exp": v} for n, (_, v) in enumerate(recs)])
+    out_path = run.path("edit.res.ndjson")
+    harness(["replay", "build", "--exp", exp_path, "--out", out_path, "--light", "0"])
+    rows2 = read_ndjson(out_path)
+    run.notes["edit_classes"] = class_counts(rows2)
+    absorb(run, rows2, {n: v for n, (_, v) in enumerate(recs)}, mismatch_sig("build"))
